@@ -35,8 +35,9 @@ RULE = ('Five generated families. db: one of 34 database chemicals with complete
         'automatic, built directly or through the phase_ref/S0/Tb setters, phase-locked at construction or later with at_state; H and S at a random (phase,T,P), at the '
         'reference state and on both sides of Tb/Tm are compared with closed-form path integrals. mixH / mixS: IdealMixture over '
         '1-5 database or synthetic chemicals with independent reference phases/locks (mixS: 80% of cases with all database '
-        'chemicals on one side of the melting point, outside finding C07-F1), phase in s,l,g,L,S, flows 0 or 10**u; H, Cn, S against '
-        'mole-weighted pure values, homogeneity, multi-phase xH/xS/xCn and the ideal mixing term. stream: 2-4 streams of one '
+        'chemicals on one side of the melting point, outside finding C07-F1), phase in s,l,g,L,S, amounts 0 or 10**u with u in [-9,4] (optionally one present component forced to 1e-9..1e-6), '
+        'scale factors 1e-9..1e6; H, Cn, S against '
+        'mole-weighted pure values (relative tolerance, also for one component alone), homogeneity, multi-phase xH/xS/xCn and the ideal mixing term. stream: 2-4 streams of one '
         'phase at equal T,P mixed with Stream.mix_from (Stream or MultiStream), S_out >= sum S_in and the exact mixing-entropy '
         'increase. Non-trivial: evaluated phase differs from the reference phase, or >= 2 components present. Distinct by '
         '(family, clause, chemical/forms, reference phase, evaluated phase, lock, build mode, zero pattern).')
@@ -50,7 +51,8 @@ REQUIRED_CELLS = {'quick': ['db:ref', 'db:dT', 'db:deriv', 'db:dP', 'db:jump_vap
                             'db:ref=s', 'db:ref=l', 'db:ref=g', 'syn:ref=s', 'syn:ref=l', 'syn:ref=g', 'syn:locked',
                             'syn:Tb<Tm', 'mix:n>=2', 'mix:n=1', 'mix:multi', 'stream:distinct', 'stream:same',
                             'stream:kind=M', 'syn:mode=at_state', 'syn:mode=ref_setter', 'syn:mode=S0_setter',
-                            'syn:mode=Tb_setter', 'db:lock.how=at', 'db:lock.how=lock'],
+                            'syn:mode=Tb_setter', 'db:lock.how=at', 'db:lock.how=lock', 'mix:tiny_all', 'mix:tiny_some',
+                            'mix:large'],
                   'thorough': []}
 
 T_REF = 298.15
@@ -621,12 +623,31 @@ def draw_components(ch, ctx, site, side=None):
 
 
 def draw_mol(ch, label, k):
-    mol = ch.flows(label, k)
+    """Amounts over many decades: 0 or 10**u, u in [-9, 4] (trace / lab scale up to plant scale), optionally with
+    every component present, and optionally with exactly one present component pushed down to 1e-9..1e-6 while the
+    others keep their magnitude (the property holds for ALL compositions, so nothing may count as 'negligible')."""
+    mol = ch.flows(label, k, lo_exp=-9, hi_exp=4)
     if k > 1 and ch.bool(label + '.dense'):
         mol = [v or 1.0 for v in mol]          # every component present
     if not any(mol):
         mol[ch.int(label + '.nonzero', 0, k - 1)] = 1.0
+    if ch.int(label + '.one_tiny', 0, 3) == 3:
+        present = [i for i, v in enumerate(mol) if v]
+        mol[present[ch.int(label + '.tiny.i', 0, len(present) - 1)]] = ch.logfloat(label + '.tiny', -9, -6)
     return np.array(mol, float)
+
+
+def draw_scale(ch):
+    kf = ch.choice('scale', (2.0, 0.5, 10.0, 1e-7, None, None))
+    if kf is None: kf = ch.logfloat('scale.k', -9, 6)
+    return kf
+
+
+def magnitude_cells(ctx, mol, kf=1.0):
+    present = mol[mol > 0] * kf
+    if (present <= 1e-6).any():
+        ctx.cell('mix:tiny_all' if (present <= 1e-6).all() else 'mix:tiny_some')
+    if (present >= 1e3).any(): ctx.cell('mix:large')
 
 
 def pure_values(ctx, site, fn, chems, ph, T, P):
@@ -665,9 +686,19 @@ def prop_mixH(ch, ctx):
               f'mixture H = {Hm!r}, sum n_i H_i = {float(mol @ Hi)!r} ({tags})')
     ctx.check(close(Cm, float(mol @ Ci), 1e-12, scC), f'mix.Cn|{rg}|mismatch',
               f'mixture Cn = {Cm!r}, sum n_i Cn_i = {float(mol @ Ci)!r} ({tags})')
+    # one present component on its own (whatever its magnitude) contributes exactly n_i * pure_i
+    present = [i for i in range(k) if mol[i] > 0]
+    i1 = present[ch.int('alone.i', 0, len(present) - 1)]
+    alone = np.zeros(k); alone[i1] = mol[i1]
+    H1 = ctx.call('mix.H', mix.H, ph, alone, T, P, region=rg)
+    C1 = ctx.call('mix.Cn', mix.Cn, ph, alone, T, region=rg)
+    ctx.check(close(H1, mol[i1] * Hi[i1], 1e-13, abs(mol[i1] * Hi[i1])), f'mix.H.alone|{rg}|mismatch',
+              f'H of component {tags[i1]} alone (n={mol[i1]!r}) = {H1!r}, n*H_i = {mol[i1] * Hi[i1]!r}')
+    ctx.check(close(C1, mol[i1] * Ci[i1], 1e-13, abs(mol[i1] * Ci[i1])), f'mix.Cn.alone|{rg}|mismatch',
+              f'Cn of component {tags[i1]} alone (n={mol[i1]!r}) = {C1!r}, n*Cn_i = {mol[i1] * Ci[i1]!r}')
     # extensive
-    kf = ch.choice('scale', (2.0, 0.5, 10.0, None))
-    if kf is None: kf = ch.logfloat('scale.k', -3, 3)
+    kf = draw_scale(ch)
+    magnitude_cells(ctx, mol); magnitude_cells(ctx, mol, kf)
     Hk = ctx.call('mix.H', mix.H, ph, mol * kf, T, P, region=rg)
     Ck = ctx.call('mix.Cn', mix.Cn, ph, mol * kf, T, region=rg)
     ctx.check(close(Hk, kf * Hm, 1e-12, kf * scH), f'mix.H.extensive|{rg}|mismatch', f'H(k n) = {Hk!r}, k H(n) = {kf * Hm!r}')
@@ -718,9 +749,16 @@ def prop_mixS(ch, ctx):
     Si = pure_values(ctx, 'mix.pure.S', S_of, chems, ph, T, P)
     Sm = ctx.call('mix.S', mix.S, ph, mol, T, P, region=rg)
     sc = float(np.abs(mol * Si).sum()) + R * float(mol.sum())
+    # one present component on its own (whatever its magnitude): n_i * S_i, no mixing term
+    present = [i for i in range(k) if mol[i] > 0]
+    i1 = present[ch.int('alone.i', 0, len(present) - 1)]
+    alone = np.zeros(k); alone[i1] = mol[i1]
+    S1 = ctx.call('mix.S', mix.S, ph, alone, T, P, region=rg)
+    ctx.check(close(S1, mol[i1] * Si[i1], 1e-13, abs(mol[i1] * Si[i1])), f'mix.S.alone|{rg}|mismatch',
+              f'S of component {tags[i1]} alone (n={mol[i1]!r}) = {S1!r}, n*S_i = {mol[i1] * Si[i1]!r}')
     # homogeneous of degree one (holds for the pure part and for the mixing term)
-    kf = ch.choice('scale', (2.0, 0.5, 10.0, None))
-    if kf is None: kf = ch.logfloat('scale.k', -3, 3)
+    kf = draw_scale(ch)
+    magnitude_cells(ctx, mol); magnitude_cells(ctx, mol, kf)
     Sk = ctx.call('mix.S', mix.S, ph, mol * kf, T, P, region=rg)
     ctx.check(close(Sk, kf * Sm, 1e-11, kf * sc), f'mix.S.extensive|{rg}|mismatch', f'S(k n) = {Sk!r}, k S(n) = {kf * Sm!r}')
     if ch.bool('multi'):
@@ -779,7 +817,7 @@ def prop_stream(ch, ctx):
         else:
             rows = []
             for p in phases:
-                v = ch.flows(f'in{i}.{p}', n)
+                v = ch.flows(f'in{i}.{p}', n, lo_exp=-7, hi_exp=4)
                 if not any(v): v[ch.int(f'in{i}.{p}.nz', 0, n - 1)] = 1.0
                 rows.append(v)
         if base is None: base = rows
@@ -806,6 +844,18 @@ def prop_stream(ch, ctx):
     rg = f'distinct={int(distinct)},kind={kind},eb={int(eb)},xm={xm}'
     if distinct:
         ctx.nontriv(['stream', pk, kind, phases, eb, [[[1 if v else 0 for v in r] for r in rows] for rows in flows]])
+    # stream enthalpy and heat-capacity flow rates are the mole-weighted pure values (trace components included)
+    for s_, a in ((inlets[0], arr[0]),):
+        Hw = Cw = scH = scC = 0.0
+        for pi, p in enumerate(phases):
+            for j, c in enumerate(th.chemicals):
+                if a[pi][j]:
+                    h = H_of(c, p, T, P); cn = Cn_of(c, p, T)
+                    Hw += a[pi][j] * h; Cw += a[pi][j] * cn; scH += abs(a[pi][j] * h); scC += abs(a[pi][j] * cn)
+        Hg = ctx.call('stream.H', lambda: s_.H, region=rg)
+        Cg = ctx.call('stream.C', lambda: s_.C, region=rg)
+        ctx.check(close(Hg, Hw, 1e-11, scH), f'stream.H|{rg}|mismatch', f'Stream.H = {Hg!r}, sum n_i H_i = {Hw!r} (flows {a.tolist()})')
+        ctx.check(close(Cg, Cw, 1e-11, scC), f'stream.C|{rg}|mismatch', f'Stream.C = {Cg!r}, sum n_i Cn_i = {Cw!r} (flows {a.tolist()})')
     S_in = [ctx.call('stream.S', lambda s=s: s.S, region=rg) for s in inlets]
     C_in = sum(s.C for s in inlets)
     Trecv = T if not eb else ch.choice('recv.T', (T, T + 17.0, T - 23.0))
